@@ -494,7 +494,7 @@ func Run(cfg Config, root func()) Outcome {
 			continue
 		}
 		idle = 0
-		if cfg.TimeJumpProb > 0 && float64(s.draw()>>11)/(1<<53) < cfg.TimeJumpProb {
+		if s.cfg.TimeJumpProb > 0 && float64(s.draw()>>11)/(1<<53) < s.cfg.TimeJumpProb {
 			d := []time.Duration{time.Millisecond, 100 * time.Millisecond, time.Second, 10 * time.Second, 100 * time.Second}[s.draw()%5]
 			s.note("timejump")
 			s.jumps++
